@@ -148,6 +148,9 @@ func (x *Exec) runFunc(st *State, fn *ssa.Function, args []*Val, bind []*Val, de
 		panic(unsupported{"no body: " + fn.String()})
 	}
 	fr := &Frame{fn: fn, regs: map[ssa.Value]*Val{}, names: map[string]*Val{}, depth: depth, iter: map[int]int{}, lets: map[string]*Val{}, inLoop: map[int]bool{}, auto: map[int]bool{}, entry: map[string]*Val{}}
+	if depth == 0 {
+		fr.con = x.curCon
+	}
 	for i, p := range fn.Params {
 		fr.regs[p] = args[i]
 		fr.names[p.Name()] = args[i]
